@@ -58,14 +58,14 @@ CLAIMS = {
             TB + "HashMap iteration order: answers are compared with maps sorted. serde_json / rmp_serde as the JSON oracle.",
             "Lean 4 theorems by mutual induction over typed values + differential correspondence over a macro-instantiated type family", "§4 C09"),
     "C10": ("Theorems for all doubles: for i8/i16/i32/u8/u16/u32 Ok(r) iff the double is an integer with exact value r in range; for the 64-bit types the same for every double except 2^63 / 2^64, "
-            "with the counterexamples proved and reported as known findings; guard and cast compared with the real Deserialize impls on every power of two +-2 ulp, bounds, halves, infinities and random doubles for the ten types.",
+            "with the counterexamples proved and reported as known findings; C10_model_is_the_source_text: the model's guard-and-cast is the definition regenerated on every run from the body of the impl_deserialize_for_int! macro (integrality test, both bound comparisons with the operators as written, the cast), and every integer type the macro is instantiated for, at either pointer width, has bounds covered by the exactness theorems (C10_every_instantiated_type); guard and cast compared with the real Deserialize impls on every power of two +-2 ulp, bounds, halves, infinities and random doubles for the ten types.",
             TB, "Lean 4 theorems (case analysis over exact values, decide +kernel for the bounds) + differential correspondence", "§4 C10"),
     "C11": ("Theorems: the inline field of a handle is min(n, 2^14-1) for every n on both widths (from the C06 round trip); the api-level length accessor returns the node's true length for every size "
             "(inline below the limit, length query exactly when the field is saturated); the length query answers -1 for values without a length; an index is refused as out of bounds iff it is >= the true length. C11_true_length_every_path: in every reachable context over an input that decodes to a document d, for every valid handle (root, nested, by name, by index, key) the length query returns the length of the decoded sub-document (string bytes / elements / pairs, any size) and exactly the indices below it can be read. "
             "Strings/arrays/objects of sizes 0..40, 2^14-3..2^14+2, 65535, 65536, 70000 reached as root, nested, by name, by index and as key-at-index compared with the real provider and api accessors.",
             TB, "Lean 4 theorems over the NaN-box and reader models + differential correspondence at boundary sizes", "§4 C11"),
     "C12": ("Theorem C12_refines (refinement to an append-only list of byte strings): after interning any sequence of strings the ids are 0,1,2,… and the k-th id resolves to the k-th string — however many and however large the later ones are; "
-            "C12_write_by_id / C12_lookup_by_id: using an id behaves exactly like using the bytes; the interner survives a new invocation. Interleavings of interns (0..1 MiB), lookups and writes by id, new invocations and a second thread compared with the real crates.",
+            "C12_write_by_id / C12_lookup_by_id: using an id behaves exactly like using the bytes; the interner survives a new invocation. At the level of a whole thread, for every history of protocol operations (reads, writes, logs, new invocations, typed (de)serialisation, further interning, reservations whose copy is pending): C12_id_resolves_forever (an id that resolves to bs resolves to bs after every further sequence of operations), C12_intern_creates / C12_reserve_then_copy_creates (both ways of interning return a fresh id that resolves from then on), C12_cached_same_id (a cached handle answers the same id on every later load on its thread, without interning again, and the id resolves) — by a frame theorem over the whole protocol step and the storage invariant that spans lie one after the other. Interleavings of interns (0..1 MiB, lengths around 2^8 and 2^16 re-used by id), lookups and writes by id, new invocations and a second thread compared with the real crates.",
             TB + "A variant that stored pointers instead of offsets cannot be told apart by the model (offsets only); the correspondence run across buffer growth is what exhibits it.",
             "Lean 4 refinement theorem by induction over intern sequences + differential correspondence", "§4 C12"),
     "C13": ("Theorems: starting an invocation yields a state that depends only on the input bytes and on the deliberately surviving interner/cache, so every later answer is independent of earlier history (all histories); "
@@ -75,9 +75,9 @@ CLAIMS = {
             "regenerated obligation that every native global item is thread_local or immutable; real OS threads under a baton-passing scheduler (random schedules, the 3-step reproducer, all interleavings of two short scripts) compared with solo runs and with the model.",
             TB + "Steps are atomic in the model: data races inside one provider call are not modelled.",
             "Lean 4 theorem by induction over schedules + regenerated inventory obligation + scheduled differential runs", "§4 C14"),
-    "C15": ("decide +kernel over tables regenerated from the artefacts as they are now: WAT = C header (compiled now with clang for wasm32) = Rust extern block = trampoline's accepted names; expected signatures; "
+    "C15": ("decide +kernel over tables regenerated from the artefacts as they are now: WAT = C header (compiled now with clang for wasm32) = Rust extern block = trampoline's accepted names (IMPORTS table); the signatures the real tool insists on, the provider imports it emits and the low-level names it tolerates are found by probing the real tool on every run (sfw abi: whole API at once, each function with its public and a perturbed signature) and agree with the static table (C15_tool_renames_agree_with_table); "
             "every emitted low-level import exists in the provider with the same signature; one module name = shopify_function_v<major>; README tables and header defines = core enums. The quantifier is a finite table, so this is a proof.",
-            "Trusted: Lean kernel; the extractor (s-expression reader for WAT, wasm import-section reader, regex readers for Rust, the Rust->wasm32 type map), clang 14. The provider's real wasm export section is not reachable offline; the source-level type map stands in.",
+            "Trusted: Lean kernel; the extractor (s-expression reader for WAT, wasm import-section reader, regex readers for Rust, the Rust->wasm32 type map), the probing harness sfw abi (walrus, wat, wasmparser), clang 14. The provider's real wasm export section is not reachable offline; the source-level type map stands in.",
             "Lean 4 decide over regenerated tables (translator tie)", "§4 C15"),
 }
 
